@@ -266,3 +266,101 @@ def gen_attr(r, op, kw, kind, multi, ctx, units_p=0.3, route=None, count=None):
     if units is not None:
         d['units'] = units
     return {'$setup': d, 'route': 'AttrSetup' if route == 'AttrSetup' else 'dict'}
+
+
+# ------------------------------------------------------------------------------------------------
+# frames
+# ------------------------------------------------------------------------------------------------
+
+def chunk_choices(n):
+    s = {1, 2, n, n + 1, 10 * n, None}
+    for d in range(2, n):
+        if n % d == 0:
+            s.add(d)
+            break
+    if n > 3:
+        s.add(n - 1)
+        s.add(3 if n % 3 else 4)
+    return sorted(s, key=lambda x: (x is None, x))
+
+
+def frame_spec(r: random.Random, mx=None, rows=None, nch=None, sources=('inline', 'dict', 'struct', 'hdf5'),
+               casts=False, fills=('pos', 'rand', 'special'), layouts=LAYOUTS, orders='<>=', index=False,
+               window=False, nframes=1, dtypes=DTYPES, max_width=None) -> dict:
+    """Random valid spec: origin + nframes frames with their own channels and data."""
+    mx = mx or r.choice([64, 128, 512, 8192, 8192, 16384])
+    cap = mx - 8
+    sp = base_spec(mx)
+    sp['ops'].append(origin_op())
+    n = rows or r.choice([1, 2, 3, 5, 7, 16, 64])
+    source = r.choice(list(sources))
+    tag = 0
+    for f in range(nframes):
+        k = nch or r.choice([1, 1, 2, 3, 4, 6])
+        idxs = []
+        for c in range(k):
+            tag += 1
+            dt = r.choice(list(dtypes))
+            order = r.choice(orders)
+            wsel = r.random()
+            if index and c == 0:
+                shape = (n,)
+            elif wsel < 0.45:
+                shape = (n,)
+            elif wsel < 0.6:
+                shape = (n, 1)
+            elif wsel < 0.9:
+                shape = (n, r.choice([2, 3, 5, 8]))
+            else:
+                shape = (n, min(max_width or 10 ** 9, r.choice([cap // 2 + 1, cap + 3, 2 * cap + 1, 40])))
+            layout = r.choice(list(layouts))
+            if source == 'hdf5' and layout == 'readonly':
+                layout = 'C'
+            fill = {'kind': r.choice(list(fills)), 'tag': tag, 'seed': r.randrange(1 << 30)}
+            kw = {}
+            if casts and r.random() < 0.4:
+                kw['cast_dtype'] = {'$dtype': r.choice(DTYPES), 'as': r.choice(['type', 'dtype'])}
+                fill = {'kind': 'safe', 'tag': tag}
+            if r.random() < 0.3:
+                kw['dataset_name'] = ('/' if (source == 'hdf5' and r.random() < 0.3) else '') + f'ds_{f}_{c}'
+            nm = f'CH{f}_{c}'
+            sp['ops'].append(channel_op(nm, dtstr(dt, order), shape, fill=fill, layout=layout, **kw))
+            idxs.append(len(sp['ops']) - 1)
+        fattrs = {}
+        if index:
+            fattrs['index_type'] = r.choice(INDEX_TYPES)
+        sp['ops'].append(frame_op(f'FRAME{f}', idxs, **fattrs))
+    w = {'source': source, 'input_chunk_size': r.choice(chunk_choices(n)),
+         'output_chunk_size': r.choice([mx, 2 * mx, 2 ** 16])}
+    if source != 'inline':
+        w['perm_seed'] = r.choice([None, r.randrange(1000)])
+        w['extra'] = r.choice([0, 0, 1, 3])
+    if window and n > 1:
+        a = r.randrange(0, n)
+        b = r.randrange(a + 1, n + 1)
+        w['from_idx'] = a
+        w['to_idx'] = r.choice([b, b, None]) if True else b
+    sp['write'] = w
+    return sp
+
+
+def frame_signature(sp) -> str:
+    chans = [o for o in sp['ops'] if o['op'] == 'channel']
+    w = sp.get('write', {})
+    n = chans[0]['data']['shape'][0] if chans else 0
+    ics = w.get('input_chunk_size')
+    rel = 'none' if ics is None else ('1' if ics == 1 else 'div' if n % ics == 0 and ics < n else 'eq' if ics == n
+                                      else 'gt' if ics > n else 'nondiv')
+    parts = sorted({(c['data']['dtype'], c['data'].get('layout', 'C'), len(c['data']['shape']),
+                     c['data'].get('fill', {}).get('kind'), bool(c.get('cast_dtype'))) for c in chans})
+    return f"{parts}|{w.get('source', 'inline')}|{rel}|{n}|{w.get('from_idx')}:{w.get('to_idx')}"
+
+
+def frame_nontrivial(sp) -> bool:
+    chans = [o for o in sp['ops'] if o['op'] == 'channel']
+    w = sp.get('write', {})
+    n = chans[0]['data']['shape'][0] if chans else 0
+    ics = w.get('input_chunk_size')
+    return any(c['data']['dtype'][0] == '>' or c['data'].get('layout', 'C') != 'C' or len(c['data']['shape']) > 1
+               or c['data'].get('fill', {}).get('kind') in ('rand', 'special') for c in chans) \
+        or (ics is not None and ics < n)
